@@ -226,6 +226,10 @@ def resolve_unwindsets(harnesses):
                     if not lline or text not in _src_line(lfile, int(lline)):
                         continue
                 hit.append(lid)
+            if not hit and pat in ("memcmp", "memcpy", "memmove", "memset", "strlen"):
+                # CBMC's built-in library bodies are linked in only when CBMC runs, so their loops
+                # are not in the goto binary yet; their ids are fixed
+                hit = [pat + ".0"]
             if not hit:
                 notes.append(f"{h['name']}: unwindset pattern {pat!r} matched no loop")
             for lid in hit:
